@@ -1,4 +1,5 @@
 import Fcgi.Proofs.E2EParse
+import Fcgi.Proofs.E2EFits
 /-!
 # End-to-end composition (C07) — part 5: one poll of the connection task, stage by stage
 
@@ -17,12 +18,17 @@ structure Cfg where
   p : Preamble
   /-- the preamble's records (idle noise first) -/
   recs : List Rec
-  /-- the Stdin content, and the stream's records without the terminator -/
+  /-- the Stdin content and the stream's records without the terminator (Responder, Filter) -/
   content : Bytes
   body : List Rec
   /-- padding and reserved byte of the terminating empty Stdin record -/
   pad : Bytes
   res : UInt8
+  /-- the same for the Data stream (Filter) -/
+  content2 : Bytes
+  body2 : List Rec
+  pad2 : Bytes
+  res2 : UInt8
   /-- `Config::buffer_size`, `max_conns` -/
   b : Nat
   mc : Nat
@@ -34,38 +40,75 @@ structure Cfg where
   /-- handler starts before this request, and the handler scripts of the requests after it -/
   hs0 : Nat
   more : List (List HOp × Bool)
+  /-- role-dependent (pinned down by `Cfg.Shape`): the wire after the preamble, its part after the
+  Stdin terminator, what is unread when the handler is done with its input, the replies owed for the
+  noise inside the input streams, the `R=` events of the handler's reads, the handler script -/
+  X : Bytes
+  X2 : Bytes
+  U : Bytes
+  Ot : Bytes
+  revs : List String
+  hscript : List HOp
 
 namespace Cfg
 def cap (g : Cfg) : Nat := alignedBufsize g.b
 /-- the terminating record of the Stdin stream -/
 def term (g : Cfg) : Rec := { rtype := 5, id := g.p.id, content := [], pad := g.pad, reserved := g.res }
-/-- the wire after the preamble -/
-def X (g : Cfg) : Bytes := serAll g.body ++ g.term.ser
+/-- … of the Data stream -/
+def term2 (g : Cfg) : Rec := { rtype := 8, id := g.p.id, content := [], pad := g.pad2, reserved := g.res2 }
 def W (g : Cfg) : Bytes := serAll g.recs ++ g.X
-def K (g : Cfg) : RCtx := ⟨⟨g.p.id, 1, 5, g.mc, g.term.ser⟩, g.p.request, g.cap⟩
+/-- the Stdin stream as the stream parser sees it -/
+def K (g : Cfg) : RCtx :=
+  ⟨⟨g.p.id, g.p.role, 5, g.mc⟩, g.p.request, g.cap, g.X, g.content, owedStream g.p.id 5 g.mc g.body,
+    g.term.ser ++ g.X2⟩
+/-- the Data stream of a Filter -/
+def K2 (g : Cfg) : RCtx :=
+  ⟨⟨g.p.id, 3, 8, g.mc⟩, g.p.request, g.cap, g.term.ser ++ g.X2, g.content2,
+    owedStream g.p.id 8 g.mc g.body2, g.term2.ser⟩
+def N (g : Cfg) : ECtx := ⟨g.p.request, g.cap, g.mc, g.U⟩
 /-- the write log when the handler starts -/
 def L1 (g : Cfg) : Bytes := g.L0 ++ owedPreamble g.p g.mc g.recs
-/-- … when the handler has returned -/
-def L2 (g : Cfg) : Bytes := g.L1 ++ streamRecords 6 g.p.id g.data
+def Wc (g : Cfg) : WCtx := ⟨g.N, g.data, g.st, g.L1, g.Ot, g.revs⟩
+/-- … when the handler has returned; `O1` = the stream-noise replies written before its output -/
+def L2 (g : Cfg) (O1 : Bytes) : Bytes := (g.L1 ++ O1) ++ streamRecords 6 g.p.id g.data
 /-- the epilogue `[Stdout∅][Stderr∅][EndRequest(id, st)]` -/
 def epi (g : Cfg) : Bytes := makeRequestEpilogue g.p.id g.st [RT.stdout, RT.stderr]
-/-- … when `close` is done -/
-def L3 (g : Cfg) : Bytes := g.L2 ++ g.epi
-/-- what the next `parse_request` would see: this request's terminator as idle noise in front of a
-preamble (any; we reuse this request's) -/
-def W' (g : Cfg) : Bytes := serAll (g.term :: g.recs)
+/-- … when `close` is done; `O2` = the stream-noise replies `close` still had to write -/
+def L3 (g : Cfg) (O1 O2 : Bytes) : Bytes := g.L2 O1 ++ O2 ++ g.epi
+/-- what the next `parse_request` would see: what this request left unread (the terminating record
+of its last input stream) in front of a preamble (any; we reuse this request's) -/
+def W' (g : Cfg) : Bytes := g.U ++ serAll g.recs
+
+/-- the handler suspended in one of its `readAll`s -/
+def Rd (g : Cfg) (r : AReq) (h : HState) (e : Run.Env) : Prop :=
+  (g.p.role = 1 ∧ HRead g.K (oscript g.data g.st) g.L1 [] r h e) ∨
+  (g.p.role = 3 ∧ FRd g.K g.K2 g.Wc r h e)
+
+/-- The role of the request and what it means for the role-dependent fields. -/
+inductive Shape (g : Cfg) : Prop
+  | responder (hr : g.p.role = 1) (hb : Body g.p.id 5 g.content g.body)
+      (hf : NoiseFits (alignedBufsize g.b) g.body) (hp : g.pad.length < 256) (hX2 : g.X2 = [])
+      (hX : g.X = serAll g.body ++ g.term.ser) (hU : g.U = g.term.ser)
+      (hOt : g.Ot = owedStream g.p.id 5 g.mc g.body) (hrv : g.revs = [rEvent g.content])
+      (hs : g.hscript = script g.data g.st)
+  | authorizer (hr : g.p.role = 2) (hX : g.X = []) (hU : g.U = []) (hOt : g.Ot = []) (hrv : g.revs = [])
+      (hs : g.hscript = oscript g.data g.st)
+  | filter (hr : g.p.role = 3) (hb : Body g.p.id 5 g.content g.body) (hb2 : Body g.p.id 8 g.content2 g.body2)
+      (hf : NoiseFits (alignedBufsize g.b) g.body) (hf2 : NoiseFits (alignedBufsize g.b) g.body2)
+      (hp : g.pad.length < 256) (hp2 : g.pad2.length < 256)
+      (hX2 : g.X2 = serAll g.body2 ++ g.term2.ser) (hX : g.X = serAll g.body ++ (g.term.ser ++ g.X2))
+      (hU : g.U = g.term2.ser)
+      (hOt : g.Ot = owedStream g.p.id 5 g.mc g.body ++ owedStream g.p.id 8 g.mc g.body2)
+      (hrv : g.revs = [rEvent g.content, rEvent g.content2]) (hs : g.hscript = fscript g.data g.st)
 
 /-- The hypotheses on a request. -/
 structure OK (g : Cfg) : Prop where
   wf : WellFormedPreamble g.p g.recs
-  role : g.p.role = 1
   pairs : ∀ q ∈ g.p.pairs, (NV.enc q).length ≤ alignedBufsize g.b
   noise : NoiseFits (alignedBufsize g.b) g.recs
-  body : Body g.p.id 5 g.content g.body
-  quiet : owedStream g.p.id 5 g.mc g.body = []
-  padlen : g.pad.length < 256
+  shape : g.Shape
   /-- model fuel: `handlerPoll` gets `1000 + 4·|input|` units per poll -/
-  hfuel : alignedBufsize g.b / 32 + wcost g.data.length + 12 ≤ 1000
+  hfuel : alignedBufsize g.b / 16 + wcost g.data.length + 24 ≤ 1000
 end Cfg
 
 theorem cap24 (g : Cfg) : 24 ≤ g.cap := alignedBufsize_ge g.b
@@ -76,6 +119,44 @@ theorem pid_lt {g : Cfg} (ok : g.OK) : 0 < g.p.id ∧ g.p.id < 65536 := by
   induction h with
   | noise r hn t ih => exact ih
   | «begin» pad res body5 hb hp hid hrole hl t => exact hid
+
+theorem termRec5 (g : Cfg) : g.term = termRec ⟨g.p.id, g.p.role, 5, g.mc⟩ g.pad g.res := rfl
+theorem termRec8 (g : Cfg) : g.term2 = termRec ⟨g.p.id, 3, 8, g.mc⟩ g.pad2 g.res2 := rfl
+
+theorem term_wf {g : Cfg} (ok : g.OK) (hp : g.pad.length < 256) : g.term.WF :=
+  ⟨(pid_lt ok).2, by simp [Cfg.term], hp⟩
+theorem term2_wf {g : Cfg} (ok : g.OK) (hp : g.pad2.length < 256) : g.term2.WF :=
+  ⟨(pid_lt ok).2, by simp [Cfg.term2], hp⟩
+
+/-- the reference on the Stdin stream's wire, and the buffer condition (Responder) -/
+theorem kok {g : Cfg} (ok : g.OK) (hr : g.p.role = 1) (hb : Body g.p.id 5 g.content g.body)
+    (hf : NoiseFits (alignedBufsize g.b) g.body) (hp : g.pad.length < 256) (hX2 : g.X2 = [])
+    (hX : g.X = serAll g.body ++ g.term.ser) : g.K.OK := by
+  have hid := (pid_lt ok).2
+  have hXs : g.X = serAll (g.body ++ g.term :: []) := by
+    rw [hX, C02.serAll_append, C02.serAll_single]
+  have hcls : rclass ⟨g.p.id, g.p.role, 5, g.mc⟩ g.term = .endStream := by simp [rclass, Cfg.term, RT.isInputStream]
+  have href := refWire_stream ⟨g.p.id, g.p.role, 5, g.mc⟩ (Or.inl rfl) hid hb g.term (term_wf ok hp) hcls []
+    (fun r hr => by cases hr)
+  have hwf : ∀ r ∈ g.body ++ g.term :: [], r.WF := by
+    intro r hr
+    rcases List.mem_append.1 hr with hr | hr
+    · exact body_wf hid hb r hr
+    · rw [List.mem_singleton.1 hr]; exact term_wf ok hp
+  refine ⟨?_, ?_, by have := cap24 g; show 8 ≤ g.cap; omega⟩
+  · show refWire ⟨g.p.id, g.p.role, 5, g.mc⟩ g.X = _
+    rw [hXs, href]
+    simp only [Cfg.K, hX2, List.append_nil, C02.serAll_single]
+  · intro G hG hv
+    have hG' : G <+: g.X := hG
+    rw [hXs] at hG'
+    refine stream_fits ⟨g.p.id, g.p.role, 5, g.mc⟩ _ hwf (by rw [href]; intro h; cases h)
+      (by have := cap24 g; show 8 ≤ alignedBufsize g.b; exact Nat.le_trans (by omega) this) ?_ G hG' hv
+    intro r hr hg
+    rcases List.mem_append.1 hr with hr | hr
+    · exact hf r hr hg
+    · rw [List.mem_singleton.1 hr] at hg
+      exact absurd hg.1 (by simp [Cfg.term, RT.getValues])
 
 theorem term_idle {g : Cfg} (ok : g.OK) : IdleNoise g.term :=
   ⟨⟨(pid_lt ok).2, by simp [Cfg.term], ok.padlen⟩, fun h => by simp [Cfg.term, RT.beginRequest] at h⟩
@@ -165,6 +246,16 @@ structure CEnd (g : Cfg) (r : AReq) (input : Bytes) : Prop where
   mc : r.sp.maxConns = g.mc
   rawlen : r.sp.raw.length ≤ g.cap
 
+/-- … before `close` has written the replies still queued in the parser (`sp.output` arbitrary) -/
+structure CEndW (g : Cfg) (r : AReq) (input : Bytes) : Prop where
+  pay : r.sp.pay = 0
+  pad : r.sp.pad = 0
+  wire : r.sp.raw ++ input = g.term.ser
+  req : r.sp.request = g.p.request
+  cap : r.sp.cap = g.cap
+  mc : r.sp.maxConns = g.mc
+  rawlen : r.sp.raw.length ≤ g.cap
+
 inductive Stage (g : Cfg) : Conn → Prop
   | start {c : Conn} {raw : Bytes} (hph : c.phase = .parseReq ⟨g.cap, raw, .header, g.mc⟩ .start)
       (hwire : raw ++ c.env.tr.input = g.W) (hraw : raw.length ≤ g.cap) (hlog : c.env.tr.wlog = g.L0)
@@ -175,34 +266,42 @@ inductive Stage (g : Cfg) : Conn → Prop
       (hsc : c.scripts = (script g.data g.st, true) :: g.more) (hm : c.env.mutex = none)
       (hev : hsCount c.env.tr.events = g.hs0) : Stage g c
   | hread {c : Conn} {r : AReq} {h : HState} (hph : c.phase = .handler r h)
-      (hr : HRead g.K g.content g.data g.st g.L1 r h c.env) (hb : Ben c.env.tr) (hstop : c.stop = false)
+      (hr : HRead g.K g.data g.st g.L1 r h c.env) (hb : Ben c.env.tr) (hstop : c.stop = false)
       (hev : Ev1 g c.env.tr) (hsc : c.scripts = g.more) : Stage g c
-  | hwrite {c : Conn} {r : AReq} {h : HState} (hph : c.phase = .handler r h)
-      (hw : HWrite g.K g.content g.data g.st g.L1 r h c.env) (hb : Ben c.env.tr) (hstop : c.stop = false)
+  | hwrite {c : Conn} {r : AReq} {h : HState} {O1 : Bytes} (hph : c.phase = .handler r h)
+      (hw : HWrite g.K g.data g.st g.L1 O1 r h c.env) (hb : Ben c.env.tr) (hstop : c.stop = false)
       (hev : Ev1 g c.env.tr) (hsc : c.scripts = g.more) : Stage g c
-  | close {c : Conn} {r : AReq} {rest : Bytes} (hph : c.phase = .closing r (.writeEnd rest) g.st 0)
-      (hce : CEnd g r c.env.tr.input) (hm : c.env.mutex = none) (hlog : c.env.tr.wlog ++ rest = g.L3)
+  | closeW {c : Conn} {r : AReq} {rest O1 O2 : Bytes}
+      (hph : c.phase = .closing r (.writeOut rest g.epi) g.st 0) (hO : O1 ++ O2 = g.Ot)
+      (hce : CEndW g r c.env.tr.input) (hm : c.env.mutex = none)
+      (hlog : c.env.tr.wlog ++ rest ++ g.epi = g.L3 O1 O2)
       (hb : Ben c.env.tr) (hstop : c.stop = false) (hev : Ev1 g c.env.tr)
       (hre : rEvent g.content ∈ c.env.tr.events) (hsc : c.scripts = g.more) : Stage g c
-  | idle {c : Conn} {F : Bytes} (hst : PSt g.cap g.mc g.W' g.L3 (serAll g.recs) c F)
+  | close {c : Conn} {r : AReq} {rest O1 O2 : Bytes} (hph : c.phase = .closing r (.writeEnd rest) g.st 0)
+      (hO : O1 ++ O2 = g.Ot)
+      (hce : CEnd g r c.env.tr.input) (hm : c.env.mutex = none) (hlog : c.env.tr.wlog ++ rest = g.L3 O1 O2)
+      (hb : Ben c.env.tr) (hstop : c.stop = false) (hev : Ev1 g c.env.tr)
+      (hre : rEvent g.content ∈ c.env.tr.events) (hsc : c.scripts = g.more) : Stage g c
+  | idle {c : Conn} {F O1 O2 : Bytes} (hO : O1 ++ O2 = g.Ot)
+      (hst : PSt g.cap g.mc g.W' (g.L3 O1 O2) (serAll g.recs) c F)
       (hfin : F ++ c.env.tr.input = g.term.ser) (hkeep : g.p.flags.toNat % 2 = 1)
       (hev : Ev1 g c.env.tr) (hre : rEvent g.content ∈ c.env.tr.events) (hsc : c.scripts = g.more)
       (hmx : c.env.mutex = none) : Stage g c
 
 /-- the connection finished after answering the request completely -/
-structure Fin (g : Cfg) (c' : Conn) : Prop where
+structure Fin (g : Cfg) (O1 O2 : Bytes) (c' : Conn) : Prop where
   ph : c'.phase = .finished
-  log : c'.env.tr.wlog = g.L3
+  log : c'.env.tr.wlog = g.L3 O1 O2
   ev : Ev1 g c'.env.tr
   re : rEvent g.content ∈ c'.env.tr.events
   sc : c'.scripts = g.more
   why : g.p.flags.toNat % 2 = 0 ∨ (g.p.flags.toNat % 2 = 1 ∧ c'.env.tr.endMode = .eof)
 
 /-- the connection waits for the next request on an empty buffer, at the end of the input -/
-structure Parked (g : Cfg) (c' : Conn) : Prop where
+structure Parked (g : Cfg) (O1 O2 : Bytes) (c' : Conn) : Prop where
   ph : c'.phase = .parseReq ⟨g.cap, [], .header, g.mc⟩ .reading
   inp : c'.env.tr.input = []
-  log : c'.env.tr.wlog = g.L3
+  log : c'.env.tr.wlog = g.L3 O1 O2
   ev : Ev1 g c'.env.tr
   re : rEvent g.content ∈ c'.env.tr.events
   sc : c'.scripts = g.more
@@ -212,11 +311,12 @@ structure Parked (g : Cfg) (c' : Conn) : Prop where
   keep : g.p.flags.toNat % 2 = 1
   em : c'.env.tr.endMode = .pend
 
-/-- How a poll started in a stage ends. -/
+/-- How a poll started in a stage ends.  `O1 ++ O2` = the replies owed for the stream's noise, `O1`
+written before the handler's output, `O2` after it (by `close`). -/
 inductive Out (g : Cfg) (c c' : Conn) : PRes → Prop
   | pend : Stage g c' → c'.env.tr.woken = true → ans c'.env.tr < ans c.env.tr → Out g c c' .pending
-  | park : Stage g c' → Parked g c' → Out g c c' .pending
-  | fin : Fin g c' → Out g c c' .finished
+  | park {O1 O2 : Bytes} : Stage g c' → O1 ++ O2 = g.Ot → Parked g O1 O2 c' → Out g c c' .pending
+  | fin {O1 O2 : Bytes} : O1 ++ O2 = g.Ot → Fin g O1 O2 c' → Out g c c' .finished
 
 /-- `TStep` without the trace part (the `HS(` event of a handler start is not a quiet event) -/
 structure WStep (t t' : Transport) : Prop where
@@ -271,8 +371,8 @@ def Res (g : Cfg) (N : Nat) (c : Conn) : Prop :=
 theorem Out.mono {g : Cfg} {c c1 c' : Conn} {r : PRes} (hl : Link c c1) (h : Out g c1 c' r) : Out g c c' r := by
   cases h with
   | pend a b d => exact .pend a b (by have := hl.ts.ans_le; omega)
-  | park a b => exact .park a b
-  | fin a => exact .fin a
+  | park a b d => exact .park a b d
+  | fin a b => exact .fin a b
 
 theorem Res.of_steps {g : Cfg} {k N : Nat} {c c1 : Conn} (hs : Steps k c c1) (hl : Link c c1)
     (h : Res g N c1) : Res g (k + N) c := by
@@ -288,12 +388,12 @@ theorem wbit_le (c : Conn) : wbit c ≤ 1 := by
 
 /-! ## The tail of a KEEP_CONN connection: the next `parse_request` finds only the terminator -/
 
-theorem idle_poll {g : Cfg} (ok : g.OK) {c : Conn} {F : Bytes}
-    (hst : PSt g.cap g.mc g.W' g.L3 (serAll g.recs) c F)
+theorem idle_poll {g : Cfg} (ok : g.OK) {c : Conn} {F O1 O2 : Bytes} (hO : O1 ++ O2 = g.Ot)
+    (hst : PSt g.cap g.mc g.W' (g.L3 O1 O2) (serAll g.recs) c F)
     (hkeep : g.p.flags.toNat % 2 = 1) (hev : Ev1 g c.env.tr) (hre : rEvent g.content ∈ c.env.tr.events)
     (hsc : c.scripts = g.more) (hmx : c.env.mutex = none) :
     Res g (2 * c.env.tr.input.length + 4) c := by
-  have hfin_of : ∀ (c2 : Conn) (F2 : Bytes), PSt g.cap g.mc g.W' g.L3 (serAll g.recs) c2 F2 →
+  have hfin_of : ∀ (c2 : Conn) (F2 : Bytes), PSt g.cap g.mc g.W' (g.L3 O1 O2) (serAll g.recs) c2 F2 →
       F2 ++ c2.env.tr.input = g.term.ser := by
     intro c2 F2 h2
     have := h2.wire
@@ -304,7 +404,7 @@ theorem idle_poll {g : Cfg} (ok : g.OK) {c : Conn} {F : Bytes}
   rcases hout with ⟨c2, h1, h2, h3, h4, h5⟩ | ⟨rest, t', _, hf, hw, _⟩ | ⟨hin, hnf, hph, hst1⟩
   · refine ⟨c2, .pending, ⟨n, c1, by omega, hs, h1⟩, hfr.link.trans h3.link, ?_⟩
     have hts := hfr.ts.trans h3.ts
-    exact .pend (.idle h2 (hfin_of _ _ h2) hkeep (hev.step hts) (hts.mem_events hre)
+    exact .pend (.idle hO h2 (hfin_of _ _ h2) hkeep (hev.step hts) (hts.mem_events hre)
       (h3.scripts.trans (hfr.scripts.trans hsc)) (h3.mutex.trans (hfr.mutex.trans hmx))) h4
       (by have := hfr.ts.ans_le; omega)
   · exfalso
@@ -322,7 +422,7 @@ theorem idle_poll {g : Cfg} (ok : g.OK) {c : Conn} {F : Bytes}
     have hstep := step_reading c1 _ hph hst1.stop
     have hfree : (⟨g.cap, [], .header, g.mc⟩ : Req.Parser).free = g.cap := by simp [Req.Parser.free]
     rw [hfree] at hstep
-    have hlog1 : c1.env.tr.wlog = g.L3 := by
+    have hlog1 : c1.env.tr.wlog = g.L3 O1 O2 := by
       rcases hst1.ph with ⟨_, _, h⟩ | ⟨rest, hp', _⟩
       · rw [h, run_term ok]; simp
       · rw [hph, htrack] at hp'; cases hp'
@@ -336,16 +436,16 @@ theorem idle_poll {g : Cfg} (ok : g.OK) {c : Conn} {F : Bytes}
     cases res with
     | pending =>
       obtain ⟨hi, hw⟩ := read_pending hst1.ben hrd
-      have hst2 : PSt g.cap g.mc g.W' g.L3 (serAll g.recs) { c1 with env := { c1.env with tr := t } } g.term.ser :=
+      have hst2 : PSt g.cap g.mc g.W' (g.L3 O1 O2) (serAll g.recs) { c1 with env := { c1.env with tr := t } } g.term.ser :=
         ⟨by simpa [hi] using hst1.wire, hst1.stop, hst1.ben.step hts, hst1.rem,
           Or.inl ⟨by rw [htrack]; exact hph, hnf, by show t.wlog = _; rw [hwl, hlog1, run_term ok]; simp⟩⟩
       have hstage : Stage g { c1 with env := { c1.env with tr := t } } :=
-        .idle hst2 (hfin_of _ _ hst2) hkeep (hev.step (hts1.trans hts)) ((hts1.trans hts).mem_events hre)
+        .idle hO hst2 (hfin_of _ _ hst2) hkeep (hev.step (hts1.trans hts)) ((hts1.trans hts).mem_events hre)
           (hfr.scripts.trans hsc) (hfr.mutex.trans hmx)
       refine ⟨_, .pending, ⟨n, c1, by omega, hs, hstep⟩, hlink, ?_⟩
       rcases hw with hw | hw
       · exact .pend hstage hw.1 (by show ans t < ans c.env.tr; have := hts1.ans_le; omega)
-      · refine .park hstage ⟨hph, by show t.input = []; rw [hi, hin], by show t.wlog = _; rw [hwl, hlog1],
+      · refine .park hstage hO ⟨hph, by show t.input = []; rw [hi, hin], by show t.wlog = _; rw [hwl, hlog1],
           hev.step (hts1.trans hts), (hts1.trans hts).mem_events hre, hfr.scripts.trans hsc, hst1.stop,
           hfr.mutex.trans hmx, hst1.ben.step hts, hkeep, ?_⟩
         show t.endMode = .pend
@@ -364,7 +464,7 @@ theorem idle_poll {g : Cfg} (ok : g.OK) {c : Conn} {F : Bytes}
           · have := cap24 g; omega
           · exact hz.2
         refine ⟨{ c1 with phase := .finished, env := { c1.env with tr := t } }, .finished,
-          ⟨n, c1, by omega, hs, hstep⟩, hfr.link.trans ⟨hts.w, rfl, rfl⟩, .fin ⟨rfl, ?_, hev.step (hts1.trans hts),
+          ⟨n, c1, by omega, hs, hstep⟩, hfr.link.trans ⟨hts.w, rfl, rfl⟩, .fin hO ⟨rfl, ?_, hev.step (hts1.trans hts),
             (hts1.trans hts).mem_events hre, hfr.scripts.trans hsc, Or.inr ⟨hkeep, ?_⟩⟩⟩
         · show t.wlog = _; rw [hwl, hlog1]
         · show t.endMode = .eof; rw [hts.em]; exact heof
@@ -407,26 +507,34 @@ def mkC (c : Conn) (ph : Phase) (t : Transport) : Conn := ⟨ph, ⟨t, c.env.mut
 theorem mkC_link (c : Conn) (ph : Phase) {t : Transport} (h : TStep c.env.tr t) : Link c (mkC c ph t) :=
   ⟨h.w, rfl, rfl⟩
 
-/-- A poll of `close` that is (back) in its last `write_all`. -/
-theorem close_core {g : Cfg} (ok : g.OK) {c : Conn} {r r2 : AReq} {cs : CloseSt} {rest : Bytes}
+/-- A poll of `close` that is (back) in its last `write_all` (`t1` = the transport when that
+`write_all` is reached in this poll). -/
+theorem close_core {g : Cfg} (ok : g.OK) {c : Conn} {r r2 : AReq} {cs : CloseSt} {rest O1 O2 : Bytes}
+    {t1 : Transport} (hO : O1 ++ O2 = g.Ot)
     (hph : c.phase = .closing r cs g.st 0)
-    (heq : closePoll r cs g.st 0 c.env.mutex c.env.tr = closePoll.finishEnd r2 rest c.env.mutex c.env.tr)
-    (hce : CEnd g r2 c.env.tr.input) (hm : c.env.mutex = none) (hlog : c.env.tr.wlog ++ rest = g.L3)
+    (heq : closePoll r cs g.st 0 c.env.mutex c.env.tr = closePoll.finishEnd r2 rest c.env.mutex t1)
+    (hts1 : TStep c.env.tr t1) (hin1 : t1.input = c.env.tr.input)
+    (hce : CEnd g r2 c.env.tr.input) (hm : c.env.mutex = none) (hlog : t1.wlog ++ rest = g.L3 O1 O2)
     (hb : Ben c.env.tr) (hstop : c.stop = false) (hev : Ev1 g c.env.tr)
     (hre : rEvent g.content ∈ c.env.tr.events) (hsc : c.scripts = g.more) :
     Res g (2 * c.env.tr.input.length + 8) c := by
   have hstep := C07.closing_step c r cs g.st 0 hph
   rw [heq] at hstep
-  rcases finishEnd_cases r2 rest c.env.mutex hb with
-    ⟨rest', t', hfe, hts, hinp, hwl, hwk, hans⟩ | ⟨t', hts, hinp, hwl, hfe⟩
-  · rw [hfe] at hstep
+  have hb1 := hb.step hts1
+  rcases finishEnd_cases r2 rest c.env.mutex hb1 with
+    ⟨rest', t', hfe, hts0, hinp0, hwl, hwk, hans⟩ | ⟨t', hts0, hinp0, hwl, hfe⟩
+  · have hts := hts1.trans hts0
+    have hinp := hinp0.trans hin1
+    rw [hfe] at hstep
     have hstep' : stepConn c = .halt (mkC c (.closing r2 (.writeEnd rest') g.st 0) t') .pending := hstep
     refine ⟨mkC c (.closing r2 (.writeEnd rest') g.st 0) t', .pending, (Halts.now hstep').mono (by omega),
-      mkC_link c _ hts, .pend ?_ hwk hans⟩
-    exact .close (r := r2) (rest := rest') rfl (by show CEnd g r2 t'.input; rw [hinp]; exact hce) hm
+      mkC_link c _ hts, .pend ?_ hwk (by show ans t' < ans c.env.tr; have := hts1.ans_le; omega)⟩
+    exact .close (r := r2) (rest := rest') rfl hO (by show CEnd g r2 t'.input; rw [hinp]; exact hce) hm
       (by show t'.wlog ++ rest' = _; rw [hwl, hlog]) (hb.step hts) hstop (hev.step hts) (hts.mem_events hre) hsc
-  · rw [hfe, hce.req, hce.into] at hstep
-    have hlog' : t'.wlog = g.L3 := by rw [hwl, hlog]
+  · have hts := hts1.trans hts0
+    have hinp := hinp0.trans hin1
+    rw [hfe, hce.req, hce.into] at hstep
+    have hlog' : t'.wlog = g.L3 O1 O2 := by rw [hwl, hlog]
     by_cases hk : g.p.flags.toNat % 2 = 1
     · have hreq : (g.p.request.flags.toNat % 2 == 1) = true := by simpa [Preamble.request] using hk
       simp only [hreq, if_true] at hstep
@@ -446,13 +554,13 @@ theorem close_core {g : Cfg} (ok : g.OK) {c : Conn} {r r2 : AReq} {cs : CloseSt}
         have := (run_ok r2.sp.raw g.mc (st := .header) trivial).2.2.length_le
         have := hce.rawlen
         omega
-      have hst : PSt g.cap g.mc g.W' g.L3 (serAll g.recs)
+      have hst : PSt g.cap g.mc g.W' (g.L3 O1 O2) (serAll g.recs)
           (mkC c (.parseReq (track g.cap g.mc r2.sp.raw)
             (.writing (run .header r2.sp.raw g.mc).out (run .header r2.sp.raw g.mc).st.isFinal)) t') r2.sp.raw :=
         ⟨by show r2.sp.raw ++ t'.input ++ serAll g.recs = g.W'
             rw [hrawin, Cfg.W', serAll_cons],
           hstop, hb.step hts, hremle, Or.inr ⟨_, rfl, by show t'.wlog ++ _ = _; rw [hlog']⟩⟩
-      have hidle := idle_poll ok hst hk (hev.step hts) (hts.mem_events hre) hsc hm
+      have hidle := idle_poll ok hO hst hk (hev.step hts) (hts.mem_events hre) hsc hm
       have := Res.of_steps (Steps.step hstep' (Steps.one hstep2')) (mkC_link c _ hts) hidle
       refine this.mono ?_
       have := congrArg List.length hinp
@@ -462,23 +570,53 @@ theorem close_core {g : Cfg} (ok : g.OK) {c : Conn} {r r2 : AReq} {cs : CloseSt}
       simp only [hreq, Bool.false_eq_true, if_false] at hstep
       have hstep' : stepConn c = .halt (mkC c .finished t') .finished := hstep
       exact ⟨mkC c .finished t', .finished, (Halts.now hstep').mono (by omega), mkC_link c _ hts,
-        .fin ⟨rfl, hlog', hev.step hts, hts.mem_events hre, hsc, Or.inl (by omega)⟩⟩
+        .fin hO ⟨rfl, hlog', hev.step hts, hts.mem_events hre, hsc, Or.inl (by omega)⟩⟩
+
+/-- A poll of `close` that is (back) in the `write_all` of the replies still queued in the parser. -/
+theorem close_out {g : Cfg} (ok : g.OK) {c : Conn} {r r2 : AReq} {cs : CloseSt} {rest O1 O2 : Bytes}
+    (hO : O1 ++ O2 = g.Ot) (hph : c.phase = .closing r cs g.st 0)
+    (heq : closePoll r cs g.st 0 c.env.mutex c.env.tr =
+      closeP4 r2 c.env.mutex c.env.tr (.writeOut rest g.epi))
+    (hce : CEndW g r2 c.env.tr.input) (hm : c.env.mutex = none)
+    (hlog : c.env.tr.wlog ++ rest ++ g.epi = g.L3 O1 O2)
+    (hb : Ben c.env.tr) (hstop : c.stop = false) (hev : Ev1 g c.env.tr)
+    (hre : rEvent g.content ∈ c.env.tr.events) (hsc : c.scripts = g.more) :
+    Res g (2 * c.env.tr.input.length + 8) c := by
+  rcases hw : writeAllLoop (rest.length + 1) rest c.env.tr with ⟨rest', t', res⟩
+  obtain ⟨hts, hinp, ⟨dn, hd, hl⟩, hres⟩ := writeAllLoop_ben _ _ _ hb (Nat.lt_succ_self _) hw
+  rcases hres with ⟨rfl, rfl⟩ | ⟨rfl, _, hwk, hans⟩
+  · -- the queued replies are out: on to the epilogue
+    simp only [List.append_nil] at hd
+    subst hd
+    have heq' : closePoll r cs g.st 0 c.env.mutex c.env.tr =
+        closePoll.finishEnd { r2 with sp := r2.sp.consumeOutput r2.sp.output.length } g.epi c.env.mutex t' := by
+      rw [heq]; simp only [closeP4, hw]
+    refine close_core ok hO hph heq' hts hinp ?_ hm (by rw [hl, ← hlog]) hb hstop hev hre hsc
+    exact ⟨hce.pay, hce.pad, by simp [Str.Parser.consumeOutput], hce.wire, hce.req, hce.cap, hce.mc, hce.rawlen⟩
+  · have hstep := C07.closing_step c r cs g.st 0 hph
+    rw [heq] at hstep
+    simp only [closeP4, hw] at hstep
+    have hstep' : stepConn c = .halt (mkC c (.closing r2 (.writeOut rest' g.epi) g.st 0) t') .pending := hstep
+    refine ⟨_, .pending, (Halts.now hstep').mono (by omega), mkC_link c _ hts, .pend ?_ hwk hans⟩
+    exact .closeW (r := r2) (rest := rest') rfl hO (by show CEndW g r2 t'.input; rw [hinp]; exact hce) hm
+      (by show t'.wlog ++ rest' ++ g.epi = _; rw [hl, ← hlog, hd]; simp only [List.append_assoc])
+      (hb.step hts) hstop (hev.step hts) (hts.mem_events hre) hsc
 
 /-- the request `close` works on once it stands at the record boundary -/
 def closeReq (r : AReq) : AReq :=
-  { sp := (r.sp.switchTo none).consumeOutput 0, lock := .none, writeable := r.writeable }
+  { sp := r.sp.switchTo none, lock := .none, writeable := r.writeable }
 
 /-- `close(st)` started right after the handler returned at the end mark: `writeable()` is ready at
-once, the parser already stands at a record boundary, nothing is queued — what remains is the
-`write_all` of the epilogue. -/
+once, the parser already stands at a record boundary — what remains is the `write_all` of the
+replies still queued and then of the epilogue. -/
 theorem close_start_eq {g : Cfg} {r : AReq} {t : Transport} (he : REnd g.K r t.input) :
-    closePoll r .start g.st 0 none t = closePoll.finishEnd (closeReq r) g.epi none t ∧
-    CEnd g (closeReq r) t.input := by
-  have hwr := he.inv.wr
-  have hlock := he.inv.lock
-  have hout := he.inv.out
-  have hstrm : r.sp.stream = some 5 := he.inv.sim.strm
-  have hreq := he.inv.req
+    closePoll r .start g.st 0 none t = closeP4 (closeReq r) none t (.writeOut r.sp.output g.epi) ∧
+    CEndW g (closeReq r) t.input := by
+  obtain ⟨G, hinv⟩ := he.inv
+  have hwr := hinv.wr
+  have hlock := he.lock
+  have hstrm : r.sp.stream = some 5 := hinv.mt.strm
+  have hreq := hinv.req
   have hrb : (r.sp.switchTo none).isRecordBoundary = true := by
     simp [Str.Parser.isRecordBoundary, Str.Parser.switchTo, Str.Parser.discardStream, he.pay, he.pad]
   have h1 : closeP1 r .start none t = .ok (r, none, t, .start) := by
@@ -486,7 +624,8 @@ theorem close_start_eq {g : Cfg} {r : AReq} {t : Transport} (he : REnd g.K r t.i
   have h2 : closeP2 r none t .start = .ok ({ r with sp := r.sp.switchTo none }, none, t, .start) := by
     rw [closeP2_start]
     simp [spIgnore, hstrm, closeBoundary, hrb, closeP2Tail]
-  have hepi : epilogueOf { r with sp := r.sp.switchTo none } g.st = g.epi := by
+  have hepi : ∀ l, epilogueOf { sp := r.sp.switchTo none, lock := l, writeable := r.writeable } g.st = g.epi := by
+    intro l
     simp only [epilogueOf, hwr, if_true, Cfg.epi, outputStreams]
     show makeRequestEpilogue r.sp.request.id g.st _ = _
     rw [hreq]; rfl
@@ -496,17 +635,14 @@ theorem close_start_eq {g : Cfg} {r : AReq} {t : Transport} (he : REnd g.K r t.i
     rw [h2]
     simp only
     rw [closeP3_start]
-    simp only [Nat.lt_irrefl, if_false, gt_iff_lt, hepi]
-    have hout' : (r.sp.switchTo none).output = [] := hout
-    simp only [closeP4, hout', hlock, lockDrop, writeAllLoop, List.length_nil, List.isEmpty_nil, if_true]
+    simp only [Nat.lt_irrefl, if_false, gt_iff_lt, hlock, lockDrop, hepi]
     rfl
-  · have hs := he.inv.sinv
-    refine ⟨he.pay, he.pad, by simp [closeReq, Str.Parser.consumeOutput, Str.Parser.switchTo,
-      Str.Parser.discardStream, hout], he.wire, hreq, he.inv.capK, he.inv.sim.mc, ?_⟩
+  · have hs := hinv.sinv
+    refine ⟨he.pay, he.pad, he.wire, hreq, hinv.capK, hinv.mt.mc, ?_⟩
     have := hs.1
     simp only [Str.Parser.freeStart] at this
     show r.sp.raw.length ≤ g.cap
-    have hc : r.sp.cap = g.cap := he.inv.capK
+    have hc : r.sp.cap = g.cap := hinv.capK
     omega
 
 /-! ## The handler phase -/
@@ -516,7 +652,7 @@ theorem handlerFuel_ge (e : Run.Env) : 1000 + 4 * e.tr.input.length ≤ handlerF
 
 /-- One poll that starts inside the handler (given what this poll of the handler returns). -/
 theorem handler_core {g : Cfg} (ok : g.OK) {c : Conn} {r : AReq} {h : HState} (hph : c.phase = .handler r h)
-    (hout : HOut g.K g.content g.data g.st g.L1 c.env (handlerPoll (handlerFuel c.env) r h c.env))
+    (hout : HOut g.K g.data g.st g.L1 c.env (handlerPoll (handlerFuel c.env) r h c.env))
     (hb : Ben c.env.tr) (hstop : c.stop = false) (hev : Ev1 g c.env.tr) (hsc : c.scripts = g.more) :
     Res g (2 * c.env.tr.input.length + 10) c := by
   have hstep := C07.handler_step c r h hph
@@ -524,11 +660,11 @@ theorem handler_core {g : Cfg} (ok : g.OK) {c : Conn} {r : AReq} {h : HState} (h
   rw [hhp] at hstep hout
   obtain ⟨hts, hsegs, hres⟩ := hout
   simp only at hts hsegs hres
-  rcases hres with ⟨rfl, hwk, hans, hst⟩ | ⟨rfl, hd⟩
+  rcases hres with ⟨rfl, hwk, hans, hst⟩ | ⟨rfl, O1, hd⟩
   · have hstep' : stepConn c = .halt ⟨.handler r' h', e', c.scripts, c.stop⟩ .pending := hstep
     refine ⟨⟨.handler r' h', e', c.scripts, c.stop⟩, .pending, (Halts.now hstep').mono (by omega),
       ⟨hts.w, hsegs, rfl⟩, .pend ?_ hwk hans⟩
-    rcases hst with hst | hst
+    rcases hst with hst | ⟨O1, hst⟩
     · exact .hread rfl hst (hb.step hts) hstop (hev.step hts) hsc
     · exact .hwrite rfl hst (hb.step hts) hstop (hev.step hts) hsc
   · have halive : (h'.writers.filter Option.isSome).length = 0 := by rw [hd.ws]; rfl
@@ -538,13 +674,14 @@ theorem handler_core {g : Cfg} (ok : g.OK) {c : Conn} {r : AReq} {h : HState} (h
     have hts2 : TStep c.env.tr (e'.tr.ev s!"HE(ok:{showStatus g.st})") :=
       hts.trans (TStep.ev _ (by simp [isHS, toString_str]))
     obtain ⟨heq, hce⟩ := close_start_eq (g := g) (r := r') (t := e'.tr.ev s!"HE(ok:{showStatus g.st})") hd.fin
-    have hcore := close_core ok
+    have hO : O1 ++ r'.sp.output = g.Ot := hd.out
+    have hcore := close_out ok
       (c := ⟨.closing r' .start g.st 0, e'.ev s!"HE(ok:{showStatus g.st})", c.scripts, c.stop⟩)
-      (r := r') (r2 := closeReq r') (cs := .start) (rest := g.epi) rfl
-      (by show closePoll r' .start g.st 0 e'.mutex _ = closePoll.finishEnd _ _ e'.mutex _
+      (r := r') (r2 := closeReq r') (cs := .start) (rest := r'.sp.output) hO rfl
+      (by show closePoll r' .start g.st 0 e'.mutex _ = closeP4 _ e'.mutex _ _
           rw [hd.mtx]; exact heq)
       hce hd.mtx
-      (by show (e'.tr.ev _).wlog ++ g.epi = g.L3
+      (by show (e'.tr.ev _).wlog ++ r'.sp.output ++ g.epi = g.L3 O1 r'.sp.output
           rw [Transport.ev_wlog, hd.log]; rfl)
       (hb.step hts2) hstop (hev.step hts2)
       (by show rEvent g.content ∈ e'.tr.events ++ [_]
@@ -561,7 +698,8 @@ theorem handler_core {g : Cfg} (ok : g.OK) {c : Conn} {r : AReq} {h : HState} (h
 `done`, and the final `write_all` of its replies completes: then `F1` is the whole preamble plus the
 read-ahead `e1`, the write log is exactly the owed preamble replies, and the next phase transition
 starts the handler on `Request::new(stream parser for exactly the request sent, holding e1)`, whose
-input (buffer ++ transport) is exactly the wire after the preamble. -/
+input (buffer ++ transport) is exactly the wire after the preamble (`RInv` with nothing delivered and
+nothing generated yet). -/
 theorem handler_start {g : Cfg} (ok : g.OK) {c1 : Conn} {F1 rest : Bytes} {t' : Transport}
     (hph : c1.phase = .parseReq (track g.cap g.mc F1) (.writing rest true))
     (hw : F1 ++ c1.env.tr.input = g.W) (hstop1 : c1.stop = false)
@@ -571,7 +709,7 @@ theorem handler_start {g : Cfg} (ok : g.OK) {c1 : Conn} {F1 rest : Bytes} {t' : 
     (hlog : t'.wlog = g.L0 ++ (run .header F1 g.mc).out)
     (hsc1 : c1.scripts = (script g.data g.st, true) :: g.more) :
     ∃ e1, F1 = serAll g.recs ++ e1 ∧ e1 ++ c1.env.tr.input = g.X ∧ t'.wlog = g.L1 ∧
-      RInv g.K (AReq.new (Str.Parser.fromParser g.cap g.p.request e1 g.mc)) c1.env.tr.input g.content ∧
+      RInv g.K (AReq.new (Str.Parser.fromParser g.cap g.p.request e1 g.mc)) e1 c1.env.tr.input [] [] ∧
       stepConn c1 = .next
         ⟨.handler (AReq.new (Str.Parser.fromParser g.cap g.p.request e1 g.mc))
             { ops := script g.data g.st, propagate := true },
@@ -587,28 +725,24 @@ theorem handler_start {g : Cfg} (ok : g.OK) {c1 : Conn} {F1 rest : Bytes} {t' : 
     have hmc : (track g.cap g.mc F1).maxConns = g.mc := rfl
     rw [hcap, hinput, hmc] at hr
     subst hr
-    have hwire : e1 ++ c1.env.tr.input = serAll g.body ++ g.term.ser := by
+    have hwire : e1 ++ c1.env.tr.input = g.X := by
       have : F1 ++ c1.env.tr.input = serAll g.recs ++ g.X := by simpa [Cfg.W] using hw
       rw [hFe, List.append_assoc] at this
       exact List.append_cancel_left this
     have he1len : e1.length ≤ g.cap := by
       have := hrem1; rw [hrun] at this; exact this
     have hidlt := (pid_lt ok).2
-    have hsim : Sim g.K.E (Str.Parser.fromParser g.cap g.p.request e1 g.mc) c1.env.tr.input g.content [] := by
-      have := Sim.init (id := g.p.id) (role := 1) (s := 5) (mc := g.mc) (tail := g.term.ser)
-        (fut := c1.env.tr.input) (p := Str.Parser.fromParser g.cap g.p.request e1 g.mc) ok.body
-        (by have := C02.endMark_term (role := 1) hidlt (Or.inl rfl) g.pad g.res ok.padlen []
-            simpa [Cfg.term] using this)
-        (by decide) rfl (by show g.p.role = 1; exact ok.role)
-        (by simp [Str.Parser.fromParser, nextInputStream, Preamble.request, ok.role, RT.stdin]) rfl rfl rfl
-        hwire
-      rw [ok.quiet] at this
+    have hstart : C03SI.Start g.K.E (Str.Parser.fromParser g.cap g.p.request e1 g.mc) := by
+      have := C03SI.start_fresh g.cap g.p.request e1 g.mc he1len hidlt (Or.inl ok.role)
+      have hrole : g.p.request.role = 1 := ok.role
+      rw [hrole] at this
       exact this
-    refine ⟨e1, hFe, hwire, by rw [hlog, hrun]; rfl, ⟨hsim, SInv_fromParser _ _ _ _ he1len hidlt, rfl, rfl, ?_, rfl,
-      rfl, rfl, ?_⟩, hstep⟩
-    · show 8 ≤ g.cap
-      have := cap24 g; omega
+    refine ⟨e1, hFe, hwire, by rw [hlog, hrun]; rfl,
+      ⟨hstart.mtch, hstart.inv, rfl, rfl, rfl, ?_, hwire, fun x => ?_⟩, hstep⟩
     · simp [AReq.new, Str.Parser.fromParser, Preamble.request, ok.role, inputStreams]
+    · have := C03SI.rem_start hstart x
+      show refWire g.K.E (e1 ++ x) = (Rem g.K.E (Str.Parser.fromParser g.cap g.p.request e1 g.mc) x).pre [] []
+      rw [this]; rfl
   · rw [hf] at hnf; cases hnf
 
 theorem parse_poll {g : Cfg} (ok : g.OK) {c : Conn} {F : Bytes}
@@ -626,6 +760,7 @@ theorem parse_poll {g : Cfg} (ok : g.OK) {c : Conn} {F : Bytes}
   · -- the preamble is complete and its replies are written: the handler starts
     have hsc1 : c1.scripts = (script g.data g.st, true) :: g.more := hfr.scripts.trans hsc
     obtain ⟨e1, _, _, hL1, hrinv, hstep'⟩ := handler_start ok hph (by simpa using hw) hstop1 hrem1 hf hwa hlog hsc1
+    have hmx1 : c1.env.mutex = none := hfr.mutex.trans hm
     have hwsE : WStep c1.env.tr (t'.ev (hsEvent g.p.request)) :=
       hts'.w.trans ⟨List.suffix_refl _, List.suffix_refl _, rfl, rfl, Or.inl rfl, Nat.le_refl _,
         fun s hs => List.mem_append_left _ hs⟩
@@ -636,14 +771,17 @@ theorem parse_poll {g : Cfg} (ok : g.OK) {c : Conn} {F : Bytes}
         rw [hsCount_append, h0, hsCount_single_true (isHS_hsEvent _)]
       · show hsEvent g.p.request ∈ t'.events ++ [hsEvent g.p.request]
         simp
-    have hread : HRead g.K g.content g.data g.st g.L1
+    have hread : HRead g.K g.data g.st g.L1
         (AReq.new (Str.Parser.fromParser g.cap g.p.request e1 g.mc))
         { ops := script g.data g.st, propagate := true }
         ((⟨t', c1.env.mutex, c1.env.segs⟩ : Run.Env).ev (hsEvent g.p.request)) :=
-      ⟨rfl, rfl, rfl, ⟨g.content, rfl, by
-          show RInv g.K _ t'.input g.content
-          rw [hinp']; exact hrinv⟩,
-        (hfr.mutex.trans hm), hL1⟩
+      ⟨rfl, rfl, rfl, [], ⟨⟨e1, by
+          show RInv g.K _ e1 t'.input [] []
+          rw [hinp']; exact hrinv⟩, by
+          show LockInv _ c1.env.mutex
+          rw [hmx1]; exact lockInv_free rfl, Or.inl hmx1, ⟨[], by
+            show t'.wlog = g.L1 ++ []
+            rw [hL1, List.append_nil], rfl⟩⟩⟩
     have hben2 : Ben (t'.ev (hsEvent g.p.request)) := hben1.wstep hwsE
     have hfuelH : g.K.cap / 32 + 3 * t'.input.length + wcost g.data.length + 12 ≤
         handlerFuel ((⟨t', c1.env.mutex, c1.env.segs⟩ : Run.Env).ev (hsEvent g.p.request)) := by
@@ -655,7 +793,7 @@ theorem parse_poll {g : Cfg} (ok : g.OK) {c : Conn} {F : Bytes}
       (c := ⟨.handler (AReq.new (Str.Parser.fromParser g.cap g.p.request e1 g.mc))
               { ops := script g.data g.st, propagate := true },
           (⟨t', c1.env.mutex, c1.env.segs⟩ : Run.Env).ev (hsEvent g.p.request), g.more, false⟩) rfl
-      (read_phase hread hben2 hfuelH) hben2 rfl hev1 rfl
+      (read_phase (kok ok) hread hben2 hfuelH) hben2 rfl hev1 rfl
     have hres := Res.of_steps (hs.trans (Steps.one hstep')) (hfr.link.trans ⟨hwsE, rfl, hstop1.symm ▸ rfl⟩) hcore
     refine hres.mono ?_
     have h1 := hfr.ts.tle.input_len
